@@ -1,4 +1,5 @@
 import BigDec.Model.Exp
+import BigDec.Proofs.ExpEnclosure
 import BigDec.Proofs.EstCode
 import BigDec.Proofs.ExpPos
 /-! # C13 — exp(x) is positive and accurate to its last digit for every argument
@@ -27,6 +28,46 @@ theorem C13_positive (cfg : Config) {est : Nat → Nat} (hest : EstOK est) (hp :
 theorem C13_positive_code (cfg : Config) (hp : 1 ≤ cfg.precision)
     (x : Dec) (fuel : Nat) (r : Dec) (h : x.exp cfg estGuard fuel = some r) : 0 < r.int ∧ 0 < r.value :=
   C13_positive cfg estGuard_ok hp x fuel r h
+
+/-- **the interval oracle is sound**: the enclosure the driver computes contains `e^x` (Mathlib's
+    `Real.exp`) for every decimal argument and every working precision `D` -/
+theorem C13_enclosure_sound (xi xs : Int) (D : Nat) :
+    ((Spec.expEnclosure xi xs D).lo : ℝ) / 10 ^ D ≤ Real.exp ((xi : ℝ) * (10 : ℝ) ^ (-xs)) ∧
+    Real.exp ((xi : ℝ) * (10 : ℝ) ^ (-xs)) ≤ ((Spec.expEnclosure xi xs D).hi : ℝ) / 10 ^ D :=
+  Spec.expEnclosure_sound xi xs D
+
+/-- **the acceptance test of the driver is sound**: whenever the enclosure lies between
+    `(R - 1)` and `(R + 1)` units of the last place of a claimed result `R · 10^-s`, that result is
+    within one unit in the last place of the true `e^x` -/
+theorem C13_oracle_accepts_only_one_ulp (xi xs : Int) (R : Nat) (s : Int) (D : Nat) (hD : s ≤ D) (hR : 1 ≤ R)
+    (h1 : (R - 1) * 10 ^ ((D : Int) - s).toNat ≤ (Spec.expEnclosure xi xs D).lo)
+    (h2 : (Spec.expEnclosure xi xs D).hi ≤ (R + 1) * 10 ^ ((D : Int) - s).toNat) :
+    |(R : ℝ) * (10 : ℝ) ^ (-s) - Real.exp ((xi : ℝ) * (10 : ℝ) ^ (-xs))| ≤ (10 : ℝ) ^ (-s) := by
+  obtain ⟨e1, e2⟩ := Spec.expEnclosure_sound xi xs D
+  have hP : (0 : ℝ) < (10 : ℝ) ^ D := by positivity
+  obtain ⟨sh, hsh⟩ : ∃ sh : Nat, (D : Int) - s = sh := ⟨((D : Int) - s).toNat, by omega⟩
+  rw [hsh, Int.toNat_natCast] at h1 h2
+  -- 10^sh / 10^D = 10^(-s)
+  have hunit : (10 : ℝ) ^ sh / (10 : ℝ) ^ D = (10 : ℝ) ^ (-s) := by
+    rw [← zpow_natCast, ← zpow_natCast, ← zpow_sub₀ (by norm_num : (10 : ℝ) ≠ 0)]
+    congr 1; omega
+  have hu : (0 : ℝ) < (10 : ℝ) ^ (-s) := zpow_pos (by norm_num) _
+  have l1 : ((R : ℝ) - 1) * (10 : ℝ) ^ (-s) ≤ Real.exp ((xi : ℝ) * (10 : ℝ) ^ (-xs)) := by
+    have : (((R - 1) * 10 ^ sh : Nat) : ℝ) / 10 ^ D ≤ ((Spec.expEnclosure xi xs D).lo : ℝ) / 10 ^ D :=
+      div_le_div_of_nonneg_right (by exact_mod_cast h1) hP.le
+    have e : (((R - 1) * 10 ^ sh : Nat) : ℝ) / 10 ^ D = ((R : ℝ) - 1) * (10 : ℝ) ^ (-s) := by
+      rw [← hunit]; push_cast [Nat.cast_sub hR]; ring
+    rw [e] at this
+    exact le_trans this e1
+  have l2 : Real.exp ((xi : ℝ) * (10 : ℝ) ^ (-xs)) ≤ ((R : ℝ) + 1) * (10 : ℝ) ^ (-s) := by
+    have : ((Spec.expEnclosure xi xs D).hi : ℝ) / 10 ^ D ≤ (((R + 1) * 10 ^ sh : Nat) : ℝ) / 10 ^ D :=
+      div_le_div_of_nonneg_right (by exact_mod_cast h2) hP.le
+    have e : (((R + 1) * 10 ^ sh : Nat) : ℝ) / 10 ^ D = ((R : ℝ) + 1) * (10 : ℝ) ^ (-s) := by
+      rw [← hunit]; push_cast; ring
+    rw [e] at this
+    exact le_trans e2 this
+  rw [abs_le]
+  constructor <;> nlinarith
 
 /-- the reciprocal path: a negative argument is computed as `1 / e^|x|` and trimmed -/
 theorem C13_negative_is_reciprocal (cfg : Config) (est : Nat → Nat) (x : Dec) (fuel : Nat) (hneg : x.int < 0) :
